@@ -125,6 +125,20 @@ def _objects():
                                                 pwl_calibration_input_keypoints=[0.0, 1.0, 2.0], pwl_calibration_input_keypoints_type='fixed',
                                                 pwl_calibration_clip_min=0.0, pwl_calibration_clip_max=2.0, pwl_calibration_clamp_min=True,
                                                 pwl_calibration_clamp_max=True, regularizer_configs=[C.RegularizerConfig(name='calib_hessian', l1=0.5, l2=0.25)])),
+      # several nested configs carrying the same name: both kinds of trust in one feature, two dominances over it, the same
+      # regulariser twice with different amounts (all legitimate; none may be merged or dropped by a round trip)
+      ('FeatureConfig#repeated-names', lambda: C.FeatureConfig(
+          name='a', lattice_size=3, monotonicity='increasing', pwl_calibration_input_keypoints=[0.0, 1.0, 2.0],
+          reflects_trust_in=[C.TrustConfig(feature_name='b', trust_type='edgeworth', direction='positive'),
+                             C.TrustConfig(feature_name='b', trust_type='trapezoid', direction='positive')],
+          dominates=[C.DominanceConfig(feature_name='c', dominance_type='monotonic'), C.DominanceConfig(feature_name='c', dominance_type='range')],
+          regularizer_configs=[C.RegularizerConfig(name='calib_hessian', l1=0.5, l2=0.0), C.RegularizerConfig(name='calib_hessian', l1=0.0, l2=0.25)])),
+      ('CalibratedLatticeConfig#repeated-names', lambda: C.CalibratedLatticeConfig(
+          feature_configs=[C.FeatureConfig(name='a', lattice_size=2, monotonicity='increasing', pwl_calibration_input_keypoints=[0.0, 1.0, 2.0],
+                                           reflects_trust_in=[C.TrustConfig(feature_name='b', trust_type='edgeworth'),
+                                                              C.TrustConfig(feature_name='b', trust_type='trapezoid')]),
+                           C.FeatureConfig(name='b', lattice_size=2, pwl_calibration_input_keypoints=[0.0, 1.0, 2.0])],
+          regularizer_configs=[C.RegularizerConfig(name='torsion', l1=0.0, l2=0.25), C.RegularizerConfig(name='torsion', l1=0.5, l2=0.0)])),
       ('FeatureConfig#categorical', lambda: C.FeatureConfig(name='c', num_buckets=3, vocabulary_list=['x', 'y', 'z'], monotonicity=[('x', 'y')])),
       ('CalibratedLatticeConfig', lambda: _lattice_config(C)),
       ('CalibratedLinearConfig', lambda: C.CalibratedLinearConfig(feature_configs=_fcs(C), use_bias=False, output_min=0.0, output_max=1.0,
